@@ -1,4 +1,5 @@
 import Proofs.Lemmas.Closed
+import Proofs.Lemmas.Refine
 import Proofs.Facts
 /-!
   C05, second part — "no combination of stalled streams and bounded transport
@@ -105,6 +106,43 @@ theorem C05_loop_that_sends_deadlocks :
     (∀ a, Faulty.step 1 2 FaultyExample.dead a = none) ∧
     FaultyExample.dead.halves.map (fun h => (h.willing, h.delivered)) = [(true, 0), (true, 0)] :=
   ⟨FaultyExample.reachable, FaultyExample.deadlock, FaultyExample.unfinished.1⟩
+
+/-! ### the two models are linked: the atomic-action model refines the closed model -/
+
+open TunnelModel in
+/-- **Stuttering simulation.**  Every execution of the atomic-action model of
+    one half-stream (`FlowStep`: loads, compare-and-swaps, parks, wake-ups,
+    signals ...) maps, action by action, onto an execution of the closed
+    frame-level model with one reading half-stream: each atomic action is
+    either invisible at frame level or IS one frame-level action (`send`
+    commits at the successful CAS, `loopB` at `deliver`, `read` at the pop,
+    `credit` at `rCredit`, `loopA` at `uAdd`).  So the frame-level actions are
+    a sound abstraction of what the code does atom by atom, for every window,
+    chunk size, workload and schedule (carriers large enough never to fill). -/
+theorem C05_atomic_refines_closed {K W cm : Nat} (hcm : 0 < cm) {msgs : List Nat}
+    (hK : 5 * (msgs.sum + msgs.length) < K) {as : List FlowStep.Act} {s : FlowStep.St}
+    (hr : FlowStep.run cm (FlowStep.init W msgs) as = some s) :
+    Closed.run K cm (Closed.init W [(.up, true, msgs)]) (Proofs.Refine.absTrace cm (FlowStep.init W msgs) as)
+      = some (Proofs.Refine.abs s) ∧
+    (Proofs.Refine.absTrace cm (FlowStep.init W msgs) as).length ≤ as.length := by
+  refine ⟨Proofs.Refine.refines_run_absTrace hcm hK hr, ?_⟩
+  exact Proofs.Refine.absTrace_length cm as _
+
+open TunnelModel in
+/-- one atomic step from a reachable state: a stutter or exactly one frame-level action -/
+theorem C05_atomic_step_refines {K W cm : Nat} (hcm : 0 < cm) {msgs : List Nat}
+    (hK : 5 * (msgs.sum + msgs.length) < K) {as : List FlowStep.Act} {s s' : FlowStep.St} {a : FlowStep.Act}
+    (hr : FlowStep.run cm (FlowStep.init W msgs) as = some s) (hs : FlowStep.step cm s a = some s') :
+    Proofs.Refine.abs s' = Proofs.Refine.abs s ∨ ∃ b, Closed.step K cm (Proofs.Refine.abs s) b = some (Proofs.Refine.abs s') :=
+  Proofs.Refine.refines_step_reachable hcm hK hr hs
+
+open TunnelModel in
+/-- a completed atomic-level execution is a maximal frame-level execution, and the two models agree on its outcome -/
+theorem C05_final_agrees {W cm : Nat} (hW : 0 < W) (hcm : 0 < cm) {msgs : List Nat} {as : List FlowStep.Act} {s : FlowStep.St}
+    (hr : FlowStep.run cm (FlowStep.init W msgs) as = some s) (hf : s.final = true) :
+    (∀ K, Closed.Stuck K cm (Proofs.Refine.abs s)) ∧
+    (Proofs.Refine.abs s).halves.map (·.delivered) = [msgs.sum] ∧ s.dequeued = msgs.sum ∧ s.sent = msgs.sum ∧ s.win = W :=
+  ⟨fun _ => Proofs.Refine.final_maps_to_stuck hf, Proofs.Refine.final_outcome hW hcm hr hf⟩
 
 -- non-vacuity: K = 1, W = 4, cm = 2; a stalled half-stream with 10 bytes, a reading one with
 -- messages 5, 0, 3 and a reading one in the other direction with 6 bytes
